@@ -214,7 +214,9 @@ class Result:
         open_kf = [k for k in kf if k.get("status") == "open"]
         reported = 0
         seen_known = set()
-        any_found = any(v["found"] for v in self.violations)
+        known_fps = {k.get("fingerprint") for k in open_kf}
+        # a failing input that is a listed known finding does not explain a broken proof obligation
+        any_found = any(v["found"] and v["fingerprint"] not in known_fps for v in self.violations)
         for i, v in enumerate(self.violations):
             if any_found and not v["found"] and v["fingerprint"] in ("lean-build", "lean-audit"):
                 self.notes.append("broken proof obligation (search found a failing input, reported separately): " + v["what"][:300])
